@@ -91,7 +91,7 @@ fn case<S: Shape>(r: &mut Rng, acc: &mut Acc, index: u64, verbose: bool) {
     ps.sort_by(|a, b| a.total_cmp(b));
     ps.dedup();
     // (time, label)
-    times.extend_from_slice(&[(-1.0, "before"), (0.0, "before"), (next_down(d), "before"), (d, "at-delay")]);
+    times.extend_from_slice(&[(-1.0, "before"), (0.0, "before"), (-0.0, "before"), (next_down(d), "before"), (d, "at-delay")]);
     for &k in &ks {
         for &p in &ps {
             if spec.reverse {
